@@ -76,7 +76,8 @@ CONSTANTS Threads,          \* non-empty finite set of positive naturals
           MaxPoolOps,       \* number of PoolReset / PoolResetToStart steps before PoolDrop
           CreateUnderLock,  \* see above
           MayFail,          \* TRUE: creating an arena may fail (try_get* returns Err)
-          MayForget         \* TRUE: a guard may be leaked with mem::forget instead of being dropped
+          MayForget,        \* TRUE: a guard may be leaked with mem::forget instead of being dropped
+          MayPanic          \* TRUE: creating an arena may panic inside the critical section (poisons the pool mutex)
 
 VARIABLES pc,       \* [Threads -> program counter]
           mutex,    \* owner of the pool mutex, or NoThread
@@ -94,9 +95,10 @@ VARIABLES pc,       \* [Threads -> program counter]
           speak,    \* history: maximum number of threads strictly between `get returned` and `drop called`
           written,  \* history: <<arena, tag>> of every block allocated since the arena's last reset
           everCreated, \* history: number of arenas ever created (survives PoolDrop)
-          leaked    \* arenas whose guard was passed to mem::forget: never returned, never released, valid for ever
+          leaked,   \* arenas whose guard was passed to mem::forget: never returned, never released, valid for ever
+          poisoned  \* a thread panicked while it held the pool mutex (std::sync::Mutex poisoning); nothing depends on it
 
-vars == <<pc, mutex, idle, used, has, fresh, blocks, chunks, round, phase, alive, nseq, peak, speak, written, everCreated, leaked>>
+vars == <<pc, mutex, idle, used, has, fresh, blocks, chunks, round, phase, alive, nseq, peak, speak, written, everCreated, leaked, poisoned>>
 
 PCs == {"idle", "get_want", "get_cs", "get_create", "get_post", "holding", "used", "drop_want", "drop_cs", "drop_post"}
 
@@ -127,6 +129,7 @@ Init ==
     /\ written = {}
     /\ everCreated = 0
     /\ leaked = {}
+    /\ poisoned = FALSE
 
 \* every action moves exactly one thread; the two history maxima are maintained here
 Goto(t, l, h) ==
@@ -138,14 +141,14 @@ Goto(t, l, h) ==
 GetCall(t) ==                                  \* the thread calls get / try_get / get_with_size / ...
     /\ alive /\ pc[t] = "idle" /\ round[t] < MaxRounds
     /\ Goto(t, "get_want", has)
-    /\ UNCHANGED <<mutex, idle, used, has, fresh, blocks, chunks, round, phase, alive, nseq, written, everCreated, leaked>>
+    /\ UNCHANGED <<mutex, idle, used, has, fresh, blocks, chunks, round, phase, alive, nseq, written, everCreated, leaked, poisoned>>
 
 GetLock(t) ==                                  \* self.bumps.lock() succeeds
     /\ pc[t] = "get_want" /\ mutex = NoThread
     /\ mutex' = t
     /\ nseq' = nseq + 1
     /\ Goto(t, "get_cs", has)
-    /\ UNCHANGED <<idle, used, has, fresh, blocks, chunks, round, phase, alive, written, everCreated, leaked>>
+    /\ UNCHANGED <<idle, used, has, fresh, blocks, chunks, round, phase, alive, written, everCreated, leaked, poisoned>>
 
 GetPop(t) ==                                   \* pop() = Some(bump); the MutexGuard temporary is dropped
     /\ pc[t] = "get_cs" /\ mutex = t /\ idle # <<>>
@@ -155,7 +158,7 @@ GetPop(t) ==                                   \* pop() = Some(bump); the MutexG
     /\ idle' = SubSeq(idle, 1, Len(idle) - 1)
     /\ fresh' = [fresh EXCEPT ![t] = FALSE]
     /\ mutex' = NoThread
-    /\ UNCHANGED <<used, blocks, chunks, round, phase, alive, nseq, written, everCreated, leaked>>
+    /\ UNCHANGED <<used, blocks, chunks, round, phase, alive, nseq, written, everCreated, leaked, poisoned>>
 
 GetCreateBegin(t, a) ==                        \* pop() = None: self.allocator.clone() for arena `a`
     /\ pc[t] = "get_cs" /\ mutex = t /\ idle = <<>>
@@ -164,7 +167,7 @@ GetCreateBegin(t, a) ==                        \* pop() = None: self.allocator.c
        /\ has' = h
        /\ Goto(t, "get_create", h)
     /\ mutex' = IF CreateUnderLock THEN mutex ELSE NoThread
-    /\ UNCHANGED <<idle, used, fresh, blocks, chunks, round, phase, alive, nseq, written, everCreated, leaked>>
+    /\ UNCHANGED <<idle, used, fresh, blocks, chunks, round, phase, alive, nseq, written, everCreated, leaked, poisoned>>
 
 GetCreateEnd(t) ==                             \* Bump::new_in(..) returned: first chunk allocated
     /\ pc[t] = "get_create"
@@ -175,7 +178,7 @@ GetCreateEnd(t) ==                             \* Bump::new_in(..) returned: fir
     /\ mutex' = IF CreateUnderLock THEN NoThread ELSE mutex
     /\ everCreated' = everCreated + 1
     /\ Goto(t, "get_post", has)
-    /\ UNCHANGED <<idle, has, round, phase, alive, nseq, written, leaked>>
+    /\ UNCHANGED <<idle, has, round, phase, alive, nseq, written, leaked, poisoned>>
 
 GetCreateFail(t) ==                            \* Bump::try_new_in(..)? returned Err: try_get* returns Err, no guard
     /\ MayFail /\ pc[t] = "get_create"
@@ -184,12 +187,23 @@ GetCreateFail(t) ==                            \* Bump::try_new_in(..)? returned
        /\ Goto(t, "idle", h)
     /\ mutex' = IF CreateUnderLock THEN NoThread ELSE mutex
     /\ round' = [round EXCEPT ![t] = @ + 1]
-    /\ UNCHANGED <<idle, used, fresh, blocks, chunks, phase, alive, nseq, written, everCreated, leaked>>
+    /\ UNCHANGED <<idle, used, fresh, blocks, chunks, phase, alive, nseq, written, everCreated, leaked, poisoned>>
+
+GetPanic(t) ==                                 \* pop() = None and creating the arena PANICS before anything is allocated
+    \* (e.g. get_with_size(usize::MAX): capacity overflow).  The MutexGuard is dropped by the unwinding thread, which
+    \* poisons the mutex; every later `lock()` recovers the vector with PoisonError::into_inner, so the pool works as
+    \* before: guards that are alive or handed out later still return their arenas, reset / drop still cover every arena.
+    /\ MayPanic /\ pc[t] = "get_cs" /\ mutex = t /\ idle = <<>>
+    /\ mutex' = NoThread
+    /\ poisoned' = TRUE
+    /\ round' = [round EXCEPT ![t] = @ + 1]
+    /\ Goto(t, "idle", has)
+    /\ UNCHANGED <<idle, used, has, fresh, blocks, chunks, phase, alive, nseq, written, everCreated, leaked>>
 
 GetReturn(t) ==                                \* the BumpPoolGuard is constructed and returned
     /\ pc[t] = "get_post"
     /\ Goto(t, "holding", has)
-    /\ UNCHANGED <<mutex, idle, used, has, fresh, blocks, chunks, round, phase, alive, nseq, written, everCreated, leaked>>
+    /\ UNCHANGED <<mutex, idle, used, has, fresh, blocks, chunks, round, phase, alive, nseq, written, everCreated, leaked, poisoned>>
 
 (************************** through the guard ******************************)
 Use(t, grow) ==                                \* allocate + write blocks tagged <<t, phase, round>>; the arena may need a new chunk
@@ -200,20 +214,20 @@ Use(t, grow) ==                                \* allocate + write blocks tagged
        /\ chunks' = [chunks EXCEPT ![a] = @ + grow]
        /\ written' = written \cup {<<a, tag>>}
     /\ Goto(t, "used", has)
-    /\ UNCHANGED <<mutex, idle, used, has, fresh, round, phase, alive, nseq, everCreated, leaked>>
+    /\ UNCHANGED <<mutex, idle, used, has, fresh, round, phase, alive, nseq, everCreated, leaked, poisoned>>
 
 (************************ BumpPoolGuard::drop ******************************)
 DropCall(t) ==                                 \* ManuallyDrop::take; about to lock
     /\ pc[t] = "used"
     /\ Goto(t, "drop_want", has)
-    /\ UNCHANGED <<mutex, idle, used, has, fresh, blocks, chunks, round, phase, alive, nseq, written, everCreated, leaked>>
+    /\ UNCHANGED <<mutex, idle, used, has, fresh, blocks, chunks, round, phase, alive, nseq, written, everCreated, leaked, poisoned>>
 
 DropLock(t) ==
     /\ pc[t] = "drop_want" /\ mutex = NoThread
     /\ mutex' = t
     /\ nseq' = nseq + 1
     /\ Goto(t, "drop_cs", has)
-    /\ UNCHANGED <<idle, used, has, fresh, blocks, chunks, round, phase, alive, written, everCreated, leaked>>
+    /\ UNCHANGED <<idle, used, has, fresh, blocks, chunks, round, phase, alive, written, everCreated, leaked, poisoned>>
 
 DropPush(t) ==                                 \* push(bump); the MutexGuard temporary is dropped
     /\ pc[t] = "drop_cs" /\ mutex = t
@@ -222,13 +236,13 @@ DropPush(t) ==                                 \* push(bump); the MutexGuard tem
        /\ has' = h
        /\ Goto(t, "drop_post", h)
     /\ mutex' = NoThread
-    /\ UNCHANGED <<used, fresh, blocks, chunks, round, phase, alive, nseq, written, everCreated, leaked>>
+    /\ UNCHANGED <<used, fresh, blocks, chunks, round, phase, alive, nseq, written, everCreated, leaked, poisoned>>
 
 DropReturn(t) ==
     /\ pc[t] = "drop_post"
     /\ round' = [round EXCEPT ![t] = @ + 1]
     /\ Goto(t, "idle", has)
-    /\ UNCHANGED <<mutex, idle, used, has, fresh, blocks, chunks, phase, alive, nseq, written, everCreated, leaked>>
+    /\ UNCHANGED <<mutex, idle, used, has, fresh, blocks, chunks, phase, alive, nseq, written, everCreated, leaked, poisoned>>
 
 Forget(t) ==                                   \* mem::forget(guard): the arena never comes back and is never released
     /\ MayForget /\ pc[t] = "used"
@@ -237,7 +251,7 @@ Forget(t) ==                                   \* mem::forget(guard): the arena 
     /\ pc' = [pc EXCEPT ![t] = "idle"]
     /\ round' = [round EXCEPT ![t] = @ + 1]
     /\ speak' = speak /\ peak' = peak           \* the owner count does not change: the guard is live for ever
-    /\ UNCHANGED <<mutex, idle, used, fresh, blocks, chunks, phase, alive, nseq, written, everCreated>>
+    /\ UNCHANGED <<mutex, idle, used, fresh, blocks, chunks, phase, alive, nseq, written, everCreated, poisoned>>
 
 (********** pool-wide operations: need `&mut self`, i.e. no guard and no call in progress **********)
 Quiescent == \A t \in Threads : pc[t] = "idle"
@@ -251,7 +265,7 @@ PoolReset ==                                   \* for bump in self.bumps() { bum
     /\ written' = {w \in written : ~InIdle(w[1])}
     /\ phase' = phase + 1
     /\ round' = [t \in Threads |-> 0]
-    /\ UNCHANGED <<pc, mutex, idle, used, has, fresh, alive, nseq, peak, speak, everCreated, leaked>>
+    /\ UNCHANGED <<pc, mutex, idle, used, has, fresh, alive, nseq, peak, speak, everCreated, leaked, poisoned>>
 
 PoolResetToStart ==                            \* bump.reset_to_start(): keep every chunk, forget all blocks
     /\ alive /\ Quiescent /\ phase < MaxPoolOps
@@ -259,7 +273,7 @@ PoolResetToStart ==                            \* bump.reset_to_start(): keep ev
     /\ written' = {w \in written : ~InIdle(w[1])}
     /\ phase' = phase + 1
     /\ round' = [t \in Threads |-> 0]
-    /\ UNCHANGED <<pc, mutex, idle, used, has, fresh, chunks, alive, nseq, peak, speak, everCreated, leaked>>
+    /\ UNCHANGED <<pc, mutex, idle, used, has, fresh, chunks, alive, nseq, peak, speak, everCreated, leaked, poisoned>>
 
 PoolDrop ==                                    \* drop(pool): every idle arena is dropped, i.e. all its chunks are released
     /\ alive /\ Quiescent
@@ -269,12 +283,12 @@ PoolDrop ==                                    \* drop(pool): every idle arena i
     /\ chunks' = [a \in used' |-> chunks[a]]
     /\ written' = {w \in written : ~InIdle(w[1])}
     /\ idle' = <<>>
-    /\ UNCHANGED <<pc, mutex, has, fresh, round, phase, nseq, peak, speak, everCreated, leaked>>
+    /\ UNCHANGED <<pc, mutex, has, fresh, round, phase, nseq, peak, speak, everCreated, leaked, poisoned>>
 
 -----------------------------------------------------------------------------
 (* Labelled steps: <<thread, label, argument>> names one step; thread 0 is the owner of the pool.  Used by the     *)
 (* schedule emission (MC_PoolSched.tla), which records the labels in a history variable.                           *)
-ThreadLabels == {"GetCall", "GetLock", "GetPop", "GetCreateBegin", "GetCreateEnd", "GetCreateFail", "GetReturn",
+ThreadLabels == {"GetCall", "GetLock", "GetPop", "GetCreateBegin", "GetCreateEnd", "GetCreateFail", "GetPanic", "GetReturn",
                  "Use", "DropCall", "DropLock", "DropPush", "DropReturn", "Forget"}
 MainLabels   == {"PoolReset", "PoolResetToStart", "PoolDrop"}
 
@@ -285,6 +299,7 @@ ThreadStep(t, l, x) ==
     \/ l = "GetCreateBegin" /\ GetCreateBegin(t, x)
     \/ l = "GetCreateEnd"   /\ x = 0 /\ GetCreateEnd(t)
     \/ l = "GetCreateFail"  /\ x = 0 /\ GetCreateFail(t)
+    \/ l = "GetPanic"       /\ x = 0 /\ GetPanic(t)
     \/ l = "GetReturn"      /\ x = 0 /\ GetReturn(t)
     \/ l = "Use"            /\ Use(t, x)
     \/ l = "DropCall"       /\ x = 0 /\ DropCall(t)
@@ -302,7 +317,7 @@ Args(l) == IF l = "Use" THEN {0, 1} ELSE IF l = "GetCreateBegin" THEN {NewArena}
 
 \* the next-state relation, one named disjunct per action (TLC's coverage is reported per disjunct)
 ThreadNext(t) ==
-    \/ GetCall(t) \/ GetLock(t) \/ GetPop(t) \/ GetCreateBegin(t, NewArena) \/ GetCreateEnd(t) \/ GetCreateFail(t)
+    \/ GetCall(t) \/ GetLock(t) \/ GetPop(t) \/ GetCreateBegin(t, NewArena) \/ GetCreateEnd(t) \/ GetCreateFail(t) \/ GetPanic(t)
     \/ GetReturn(t) \/ (\E g \in {0, 1} : Use(t, g))
     \/ DropCall(t) \/ DropLock(t) \/ DropPush(t) \/ DropReturn(t) \/ Forget(t)
 
@@ -313,6 +328,7 @@ Next ==
     \/ \E t \in Threads : GetCreateBegin(t, NewArena)
     \/ \E t \in Threads : GetCreateEnd(t)
     \/ \E t \in Threads : GetCreateFail(t)
+    \/ \E t \in Threads : GetPanic(t)
     \/ \E t \in Threads : GetReturn(t)
     \/ \E t \in Threads : \E g \in {0, 1} : Use(t, g)
     \/ \E t \in Threads : DropCall(t)
@@ -340,7 +356,7 @@ TypeOK ==
     /\ round \in [Threads -> 0..MaxRounds]
     /\ phase \in 0..MaxPoolOps
     /\ alive \in BOOLEAN
-    /\ leaked \subseteq used
+    /\ leaked \subseteq used /\ poisoned \in BOOLEAN
     /\ nseq \in Nat /\ peak \in Nat /\ speak \in 0..Cardinality(Threads)
 
 \* the mutex is held exactly by the thread inside a critical section
@@ -388,6 +404,6 @@ LeakedStayValid ==
 NaiveReuse    == Quiescent => everCreated <= speak
 
 (* Liveness: every get returns (a guard, or Err when creating fails), every drop returns. *)
-GetReturns  == \A t \in Threads : (pc[t] = "get_want")  ~> (pc[t] \in {"holding", "idle"})
+GetReturns  == \A t \in Threads : (pc[t] = "get_want")  ~> (pc[t] \in {"holding", "idle"})   \* idle: Err or panic
 DropReturns == \A t \in Threads : (pc[t] = "drop_want") ~> (pc[t] = "idle")
 =============================================================================
